@@ -164,7 +164,9 @@ func init() {
 					case 3:
 						// an error body that is damaged only AFTER a valid code / message field: it does not decode, so it is the fallback
 						body = errBody(uint64(1000+int(status)), fmt.Sprintf("msg-%d", status))
-						switch status % 3 {
+						switch status % 4 {
+						case 3:
+							body = append(body, 0x78, 0x01, 0x82, 0x01, 0x02, 'h', 'i') // unknown fields 15 (varint) and 16 (bytes): still a decodable error body
 						case 0:
 							body = append(body, 0x07) // stray byte: illegal wire type
 						case 1:
@@ -211,6 +213,10 @@ func init() {
 						t.Check(key, false, "status %d surfaced with status %d", st, lb.Status)
 					case kind == 0 && (lb.Code != uint64(1000+st) || lb.Message != fmt.Sprintf("msg-%d", st)):
 						t.Check(key, false, "status %d: code/message %d %q", st, lb.Code, lb.Message)
+					case kind == 3 && cd != protocol.CodecJSON && st%4 == 3 && (lb.Code != uint64(1000+st) || lb.Message != fmt.Sprintf("msg-%d", st)):
+						t.Check(key, false, "status %d, protobuf error body with unknown extra fields: code/message %d %q (the body decodes: want its code and message)", st, lb.Code, lb.Message)
+					case kind == 3 && cd != protocol.CodecJSON && st%4 == 3:
+						t.Check(key, true, "")
 					case kind == 3 && cd == protocol.CodecJSON && (st%4 == 1 || st%4 == 2) && (lb.Code != uint64(1000+st) || lb.Message != fmt.Sprintf("msg-%d", st)):
 						t.Check(key, false, "status %d, JSON error body with an extra member / other member case: code/message %d %q (the body decodes: want its code and message)", st, lb.Code, lb.Message)
 					case kind == 3 && cd == protocol.CodecJSON && (st%4 == 1 || st%4 == 2):
